@@ -30,7 +30,10 @@ pub struct Log {
 }
 impl Log {
     pub fn new() -> RefCell<Log> {
-        RefCell::new(Log { evs: [None; 6], n: 0 })
+        RefCell::new(Log {
+            evs: [None; 6],
+            n: 0,
+        })
     }
     pub fn push(&mut self, e: Ev) {
         if self.n < 6 {
@@ -48,7 +51,10 @@ pub fn set_marker(ctx: &mut context::Context, v: u64) {
     ctx.trace_context.span_id = v.into();
 }
 pub fn any_ctx(m: u64) -> context::Context {
-    let mut c = context::Context { deadline: any_instant(), trace_context: Default::default() };
+    let mut c = context::Context {
+        deadline: any_instant(),
+        trace_context: Default::default(),
+    };
     set_marker(&mut c, m);
     c
 }
@@ -75,7 +81,12 @@ impl<'a> BeforeRequest<u32> for B<'a> {
     }
 }
 pub fn any_b<'a>(id: u8, log: &'a RefCell<Log>) -> B<'a> {
-    B { id, fail: kani::any(), new_marker: kani::any(), log }
+    B {
+        id,
+        fail: kani::any(),
+        new_marker: kani::any(),
+        log,
+    }
 }
 
 /// nondeterministic after-hook: may rewrite the response arbitrarily
@@ -92,14 +103,26 @@ impl<'a> AfterRequest<u32> for A<'a> {
             Ok(v) => (true, *v),
             Err(_) => (false, 0),
         };
-        self.log.borrow_mut().push(Ev::After(self.id, marker(ctx), ok, v));
+        self.log
+            .borrow_mut()
+            .push(Ev::After(self.id, marker(ctx), ok, v));
         if self.rewrite {
-            *resp = if self.to_ok { Ok(self.to_val) } else { Err(err()) };
+            *resp = if self.to_ok {
+                Ok(self.to_val)
+            } else {
+                Err(err())
+            };
         }
     }
 }
 pub fn any_a<'a>(id: u8, log: &'a RefCell<Log>) -> A<'a> {
-    A { id, rewrite: kani::any(), to_ok: kani::any(), to_val: kani::any(), log }
+    A {
+        id,
+        rewrite: kani::any(),
+        to_ok: kani::any(),
+        to_val: kani::any(),
+        log,
+    }
 }
 
 /// a hook that is both (for before_and_after)
@@ -137,7 +160,11 @@ impl<'a> Serve for S<'a> {
     }
 }
 pub fn any_s<'a>(log: &'a RefCell<Log>) -> S<'a> {
-    S { fail: kani::any(), val: kani::any(), log }
+    S {
+        fail: kani::any(),
+        val: kani::any(),
+        log,
+    }
 }
 
 fn same(out: &Result<u32, ServerError>, ok: bool, v: u32) -> bool {
@@ -150,9 +177,18 @@ fn same(out: &Result<u32, ServerError>, ok: bool, v: u32) -> bool {
 /// C19: hook-then-serve: the handler runs iff the hook passed, with the context the hook
 /// produced; its result is returned unchanged; a hook failure becomes the response.
 #[kani::proof]
-#[kani::stub(tracing::__macro_support::__is_enabled, crate::verif_kani_support::tracing_never_enabled)]
-#[kani::stub(tracing::__macro_support::MacroCallsite::interest, crate::verif_kani_support::tracing_interest_never)]
-#[kani::stub(tracing::Event::dispatch, crate::verif_kani_support::tracing_no_dispatch)]
+#[kani::stub(
+    tracing::__macro_support::__is_enabled,
+    crate::verif_kani_support::tracing_never_enabled
+)]
+#[kani::stub(
+    tracing::__macro_support::MacroCallsite::interest,
+    crate::verif_kani_support::tracing_interest_never
+)]
+#[kani::stub(
+    tracing::Event::dispatch,
+    crate::verif_kani_support::tracing_no_dispatch
+)]
 #[kani::unwind(8)]
 fn k4_hook_then_serve() {
     let log = Log::new();
@@ -165,21 +201,39 @@ fn k4_hook_then_serve() {
     let out = run(s.before(b).serve(any_ctx(m0), req));
     let l = log.borrow();
     kani::cover!(!bf && !sf, "reachable: hook passes, handler succeeds");
-    assert!(l.evs[0] == Some(Ev::Before(1, m0)), "C19: the hook runs first and sees the incoming context");
+    assert!(
+        l.evs[0] == Some(Ev::Before(1, m0)),
+        "C19: the hook runs first and sees the incoming context"
+    );
     if bf {
         assert!(l.n == 1 && out.is_err(), "C19: a failing before-hook stops the chain; the handler is not invoked; its error is the response");
     } else {
-        assert!(l.n == 2 && l.evs[1] == Some(Ev::Handler(bm, req)), "C19: the handler sees the context the hook produced and the same request");
-        assert!(same(&out, !sf, sv), "C19: the handler's result is returned unchanged");
+        assert!(
+            l.n == 2 && l.evs[1] == Some(Ev::Handler(bm, req)),
+            "C19: the handler sees the context the hook produced and the same request"
+        );
+        assert!(
+            same(&out, !sf, sv),
+            "C19: the handler's result is returned unchanged"
+        );
     }
 }
 
 /// C19: serve-then-hook: the after-hook runs exactly once after whatever it wraps produced a
 /// result (including an error), and what it leaves in the result is what is returned.
 #[kani::proof]
-#[kani::stub(tracing::__macro_support::__is_enabled, crate::verif_kani_support::tracing_never_enabled)]
-#[kani::stub(tracing::__macro_support::MacroCallsite::interest, crate::verif_kani_support::tracing_interest_never)]
-#[kani::stub(tracing::Event::dispatch, crate::verif_kani_support::tracing_no_dispatch)]
+#[kani::stub(
+    tracing::__macro_support::__is_enabled,
+    crate::verif_kani_support::tracing_never_enabled
+)]
+#[kani::stub(
+    tracing::__macro_support::MacroCallsite::interest,
+    crate::verif_kani_support::tracing_interest_never
+)]
+#[kani::stub(
+    tracing::Event::dispatch,
+    crate::verif_kani_support::tracing_no_dispatch
+)]
 #[kani::unwind(8)]
 fn k4_serve_then_hook() {
     let log = Log::new();
@@ -191,29 +245,56 @@ fn k4_serve_then_hook() {
     let (sf, sv) = (s.fail, s.val);
     let out = run(s.after(a).serve(any_ctx(m0), req));
     let l = log.borrow();
-    kani::cover!(sf && rw && tok, "reachable: after-hook turns an error into a success");
+    kani::cover!(
+        sf && rw && tok,
+        "reachable: after-hook turns an error into a success"
+    );
     assert!(l.n == 2, "C19: handler once, after-hook exactly once");
-    assert!(l.evs[0] == Some(Ev::Handler(m0, req)), "C19: the wrapped serve runs first");
-    assert!(l.evs[1] == Some(Ev::After(7, m0, !sf, if sf { 0 } else { sv })), "C19: the after-hook sees the produced result, also when it is an error");
+    assert!(
+        l.evs[0] == Some(Ev::Handler(m0, req)),
+        "C19: the wrapped serve runs first"
+    );
+    assert!(
+        l.evs[1] == Some(Ev::After(7, m0, !sf, if sf { 0 } else { sv })),
+        "C19: the after-hook sees the produced result, also when it is an error"
+    );
     if rw {
-        assert!(same(&out, tok, tv), "C19: what the after-hook leaves in the result is what is sent");
+        assert!(
+            same(&out, tok, tv),
+            "C19: what the after-hook leaves in the result is what is sent"
+        );
     } else {
-        assert!(same(&out, !sf, sv), "C19: an after-hook that leaves the result alone returns it unchanged");
+        assert!(
+            same(&out, !sf, sv),
+            "C19: an after-hook that leaves the result alone returns it unchanged"
+        );
     }
 }
 
 /// C19: combined hook: after part skipped when the before part fails; otherwise it sees the
 /// context its before part produced.
 #[kani::proof]
-#[kani::stub(tracing::__macro_support::__is_enabled, crate::verif_kani_support::tracing_never_enabled)]
-#[kani::stub(tracing::__macro_support::MacroCallsite::interest, crate::verif_kani_support::tracing_interest_never)]
-#[kani::stub(tracing::Event::dispatch, crate::verif_kani_support::tracing_no_dispatch)]
+#[kani::stub(
+    tracing::__macro_support::__is_enabled,
+    crate::verif_kani_support::tracing_never_enabled
+)]
+#[kani::stub(
+    tracing::__macro_support::MacroCallsite::interest,
+    crate::verif_kani_support::tracing_interest_never
+)]
+#[kani::stub(
+    tracing::Event::dispatch,
+    crate::verif_kani_support::tracing_no_dispatch
+)]
 #[kani::unwind(8)]
 fn k4_before_and_after() {
     let log = Log::new();
     let m0: u64 = kani::any();
     let req: u32 = kani::any();
-    let ba = BA { b: any_b(1, &log), a: any_a(2, &log) };
+    let ba = BA {
+        b: any_b(1, &log),
+        a: any_a(2, &log),
+    };
     let (bf, bm) = (ba.b.fail, ba.b.new_marker);
     let (rw, tok, tv) = (ba.a.rewrite, ba.a.to_ok, ba.a.to_val);
     let s = any_s(&log);
@@ -221,15 +302,30 @@ fn k4_before_and_after() {
     let out = run(s.before_and_after(ba).serve(any_ctx(m0), req));
     let l = log.borrow();
     kani::cover!(!bf, "reachable: before part passes");
-    assert!(l.evs[0] == Some(Ev::Before(1, m0)), "C19: before part runs first");
+    assert!(
+        l.evs[0] == Some(Ev::Before(1, m0)),
+        "C19: before part runs first"
+    );
     if bf {
-        assert!(l.n == 1 && out.is_err(), "C19: before part failed: neither the handler nor the after part runs");
+        assert!(
+            l.n == 1 && out.is_err(),
+            "C19: before part failed: neither the handler nor the after part runs"
+        );
     } else {
         assert!(l.n == 3, "C19: before, handler, after: once each");
-        assert!(l.evs[1] == Some(Ev::Handler(bm, req)), "C19: handler sees the context the before part produced");
-        assert!(l.evs[2] == Some(Ev::After(2, bm, !sf, if sf { 0 } else { sv })), "C19: after part sees the context its before part produced, and the result");
+        assert!(
+            l.evs[1] == Some(Ev::Handler(bm, req)),
+            "C19: handler sees the context the before part produced"
+        );
+        assert!(
+            l.evs[2] == Some(Ev::After(2, bm, !sf, if sf { 0 } else { sv })),
+            "C19: after part sees the context its before part produced, and the result"
+        );
         if rw {
-            assert!(same(&out, tok, tv), "C19: what the after part leaves is what is sent");
+            assert!(
+                same(&out, tok, tv),
+                "C19: what the after part leaves is what is sent"
+            );
         } else {
             assert!(same(&out, !sf, sv), "C19: result unchanged");
         }
@@ -240,9 +336,18 @@ fn k4_before_and_after() {
 /// end), each seeing the changes of those before it; the first failure stops it; serving()
 /// puts the handler after the whole chain. Chain length 0 (`before().serving(s)`) is `s`.
 #[kani::proof]
-#[kani::stub(tracing::__macro_support::__is_enabled, crate::verif_kani_support::tracing_never_enabled)]
-#[kani::stub(tracing::__macro_support::MacroCallsite::interest, crate::verif_kani_support::tracing_interest_never)]
-#[kani::stub(tracing::Event::dispatch, crate::verif_kani_support::tracing_no_dispatch)]
+#[kani::stub(
+    tracing::__macro_support::__is_enabled,
+    crate::verif_kani_support::tracing_never_enabled
+)]
+#[kani::stub(
+    tracing::__macro_support::MacroCallsite::interest,
+    crate::verif_kani_support::tracing_interest_never
+)]
+#[kani::stub(
+    tracing::Event::dispatch,
+    crate::verif_kani_support::tracing_no_dispatch
+)]
 #[kani::unwind(8)]
 fn k4_chain_api_order_and_short_circuit() {
     let log = Log::new();
@@ -253,28 +358,59 @@ fn k4_chain_api_order_and_short_circuit() {
     let (f1, m1, f2, m2) = (b1.fail, b1.new_marker, b2.fail, b2.new_marker);
     let s = any_s(&log);
     let (sf, sv) = (s.fail, s.val);
-    let out = run(before().then(b1).then(b2).serving(s).serve(any_ctx(m0), req));
+    let out = run(before()
+        .then(b1)
+        .then(b2)
+        .serving(s)
+        .serve(any_ctx(m0), req));
     let l = log.borrow();
     kani::cover!(!f1 && !f2 && !sf, "reachable: everything passes");
-    assert!(l.evs[0] == Some(Ev::Before(1, m0)), "C19: first chained hook runs first");
+    assert!(
+        l.evs[0] == Some(Ev::Before(1, m0)),
+        "C19: first chained hook runs first"
+    );
     if f1 {
-        assert!(l.n == 1 && out.is_err(), "C19: first failure stops the chain");
+        assert!(
+            l.n == 1 && out.is_err(),
+            "C19: first failure stops the chain"
+        );
     } else {
-        assert!(l.evs[1] == Some(Ev::Before(2, m1)), "C19: second hook sees the first hook's context change");
+        assert!(
+            l.evs[1] == Some(Ev::Before(2, m1)),
+            "C19: second hook sees the first hook's context change"
+        );
         if f2 {
-            assert!(l.n == 2 && out.is_err(), "C19: second failure stops the chain, handler not invoked");
+            assert!(
+                l.n == 2 && out.is_err(),
+                "C19: second failure stops the chain, handler not invoked"
+            );
         } else {
-            assert!(l.n == 3 && l.evs[2] == Some(Ev::Handler(m2, req)), "C19: handler runs last with the final context");
-            assert!(same(&out, !sf, sv), "C19: handler result returned unchanged");
+            assert!(
+                l.n == 3 && l.evs[2] == Some(Ev::Handler(m2, req)),
+                "C19: handler runs last with the final context"
+            );
+            assert!(
+                same(&out, !sf, sv),
+                "C19: handler result returned unchanged"
+            );
         }
     }
 }
 
 /// C19: chain length 0: `before()` is the empty list; `before().serving(s)` behaves as `s`.
 #[kani::proof]
-#[kani::stub(tracing::__macro_support::__is_enabled, crate::verif_kani_support::tracing_never_enabled)]
-#[kani::stub(tracing::__macro_support::MacroCallsite::interest, crate::verif_kani_support::tracing_interest_never)]
-#[kani::stub(tracing::Event::dispatch, crate::verif_kani_support::tracing_no_dispatch)]
+#[kani::stub(
+    tracing::__macro_support::__is_enabled,
+    crate::verif_kani_support::tracing_never_enabled
+)]
+#[kani::stub(
+    tracing::__macro_support::MacroCallsite::interest,
+    crate::verif_kani_support::tracing_interest_never
+)]
+#[kani::stub(
+    tracing::Event::dispatch,
+    crate::verif_kani_support::tracing_no_dispatch
+)]
 #[kani::unwind(8)]
 fn k4_empty_chain_is_identity() {
     let log = Log::new();
@@ -284,20 +420,35 @@ fn k4_empty_chain_is_identity() {
     let (sf, sv) = (s.fail, s.val);
     let out = run(before().serving(s).serve(any_ctx(m0), req));
     let l = log.borrow();
-    assert!(l.n == 1 && l.evs[0] == Some(Ev::Handler(m0, req)), "C19: empty chain: handler only, context untouched");
+    assert!(
+        l.n == 1 && l.evs[0] == Some(Ev::Handler(m0, req)),
+        "C19: empty chain: handler only, context untouched"
+    );
     assert!(same(&out, !sf, sv), "C19: result unchanged");
     let mut nil = before();
     let mut c = any_ctx(m0);
     let r = run(BeforeRequest::<u32>::before(&mut nil, &mut c, &req));
-    assert!(r.is_ok() && marker(&c) == m0, "C19: the empty list passes and changes nothing");
+    assert!(
+        r.is_ok() && marker(&c) == m0,
+        "C19: the empty list passes and changes nothing"
+    );
 }
 
 /// C19, nesting: after(before(s)) -- the after-hook runs once also when the *inner
 /// before-hook* failed (an error from an inner before-hook is a result like any other).
 #[kani::proof]
-#[kani::stub(tracing::__macro_support::__is_enabled, crate::verif_kani_support::tracing_never_enabled)]
-#[kani::stub(tracing::__macro_support::MacroCallsite::interest, crate::verif_kani_support::tracing_interest_never)]
-#[kani::stub(tracing::Event::dispatch, crate::verif_kani_support::tracing_no_dispatch)]
+#[kani::stub(
+    tracing::__macro_support::__is_enabled,
+    crate::verif_kani_support::tracing_never_enabled
+)]
+#[kani::stub(
+    tracing::__macro_support::MacroCallsite::interest,
+    crate::verif_kani_support::tracing_interest_never
+)]
+#[kani::stub(
+    tracing::Event::dispatch,
+    crate::verif_kani_support::tracing_no_dispatch
+)]
 #[kani::unwind(8)]
 fn k4_after_wraps_inner_before_error() {
     let log = Log::new();
@@ -313,42 +464,87 @@ fn k4_after_wraps_inner_before_error() {
     let l = log.borrow();
     kani::cover!(bf, "reachable: inner before-hook fails");
     if bf {
-        assert!(l.n == 2 && l.evs[1] == Some(Ev::After(9, m0, false, 0)), "C19: after-hook runs exactly once on the inner before-hook's error");
+        assert!(
+            l.n == 2 && l.evs[1] == Some(Ev::After(9, m0, false, 0)),
+            "C19: after-hook runs exactly once on the inner before-hook's error"
+        );
     } else {
-        assert!(l.n == 3 && l.evs[1] == Some(Ev::Handler(bm, req)) && l.evs[2] == Some(Ev::After(9, m0, !sf, if sf { 0 } else { sv })), "C19: before, handler, after");
+        assert!(
+            l.n == 3
+                && l.evs[1] == Some(Ev::Handler(bm, req))
+                && l.evs[2] == Some(Ev::After(9, m0, !sf, if sf { 0 } else { sv })),
+            "C19: before, handler, after"
+        );
     }
     if !rw {
-        assert!(same(&out, !bf && !sf, sv), "C19: untouched result passes through");
+        assert!(
+            same(&out, !bf && !sf, sv),
+            "C19: untouched result passes through"
+        );
     }
 }
 
 /// C19: a chain of three built through the public API runs in chained order (then appends at
 /// the end), threads the context, and stops at the first failure.
 #[kani::proof]
-#[kani::stub(tracing::__macro_support::__is_enabled, crate::verif_kani_support::tracing_never_enabled)]
-#[kani::stub(tracing::__macro_support::MacroCallsite::interest, crate::verif_kani_support::tracing_interest_never)]
-#[kani::stub(tracing::Event::dispatch, crate::verif_kani_support::tracing_no_dispatch)]
+#[kani::stub(
+    tracing::__macro_support::__is_enabled,
+    crate::verif_kani_support::tracing_never_enabled
+)]
+#[kani::stub(
+    tracing::__macro_support::MacroCallsite::interest,
+    crate::verif_kani_support::tracing_interest_never
+)]
+#[kani::stub(
+    tracing::Event::dispatch,
+    crate::verif_kani_support::tracing_no_dispatch
+)]
 #[kani::unwind(8)]
 fn k4_chain_of_three_order() {
     let log = Log::new();
     let m0: u64 = kani::any();
     let req: u32 = kani::any();
     let (b1, b2, b3) = (any_b(1, &log), any_b(2, &log), any_b(3, &log));
-    let (f1, m1, f2, m2, f3, m3) = (b1.fail, b1.new_marker, b2.fail, b2.new_marker, b3.fail, b3.new_marker);
+    let (f1, m1, f2, m2, f3, m3) = (
+        b1.fail,
+        b1.new_marker,
+        b2.fail,
+        b2.new_marker,
+        b3.fail,
+        b3.new_marker,
+    );
     let mut chain = before().then(b1).then(b2).then(b3);
     let mut ctx = any_ctx(m0);
     let out = run(BeforeRequest::<u32>::before(&mut chain, &mut ctx, &req));
     let l = log.borrow();
-    assert!(l.evs[0] == Some(Ev::Before(1, m0)), "C19: first chained hook first");
+    assert!(
+        l.evs[0] == Some(Ev::Before(1, m0)),
+        "C19: first chained hook first"
+    );
     if !f1 {
-        assert!(l.evs[1] == Some(Ev::Before(2, m1)), "C19: second chained hook second, seeing the first's change");
+        assert!(
+            l.evs[1] == Some(Ev::Before(2, m1)),
+            "C19: second chained hook second, seeing the first's change"
+        );
         if !f2 {
-            assert!(l.n == 3 && l.evs[2] == Some(Ev::Before(3, m2)), "C19: third chained hook third, seeing the second's change");
-            assert!(out.is_err() == f3 && marker(&ctx) == m3, "C19: result of the last hook");
+            assert!(
+                l.n == 3 && l.evs[2] == Some(Ev::Before(3, m2)),
+                "C19: third chained hook third, seeing the second's change"
+            );
+            assert!(
+                out.is_err() == f3 && marker(&ctx) == m3,
+                "C19: result of the last hook"
+            );
         } else {
-            assert!(l.n == 2 && out.is_err(), "C19: second failure stops the chain");
+            assert!(
+                l.n == 2 && out.is_err(),
+                "C19: second failure stops the chain"
+            );
         }
     } else {
-        assert!(l.n == 1 && out.is_err(), "C19: first failure stops the chain");
+        assert!(
+            l.n == 1 && out.is_err(),
+            "C19: first failure stops the chain"
+        );
     }
 }
